@@ -23,7 +23,11 @@ Three input spaces:
       message switch and macro call of the language; the round-robin of program i of a family starts at phase i, so
       over a family every form appears in every position; all ops carry running numbers and are distinguishable.
   Further exhaustive families: several routines with every routine kind / aliases / coroutines / cross-routine jumps
-  (`multi2`, `multi3`), and `forms` = every condition / switch header / case header / assignment / context form in
+  (`multi2`, `multi3`); `ctx` = with-blocks / inline contexts whose single statement is a jump / call / terminator /
+  continue / break / break_loop, next to labels; `routine-pairs` = ALL ordered pairs of a diverse pool of routine
+  bodies (`_body_pool`: ~60 bodies quick, ~250 thorough; second routine may also be `alias previous`) and
+  `routine-triples` = all ordered triples of a spread of that pool (12 / 40 bodies) - state that the compiler carries
+  from one routine into the next shows up there; and `forms` = every condition / switch header / case header / assignment / context form in
   every header position, macros (substitution, return, private labels, nesting).
 * `random_programs(seed, n)` - seeded random programs of size <= 40 (program i depends only on (seed, i)).
 * `flat_space(tier)` / `flat_programs` - exactly the quantifier of property C13 (flat structured programs).
@@ -293,7 +297,7 @@ MACRO_BY_NAME = {m.name: m for m in MACROS}
 class Renderer:
     """skeleton -> esast statements; concrete forms round-robin from the pools, all numbers running."""
 
-    POOLS = ("opargs", "p1", "assign", "p2", "msg", "marg", "T", "cond", "swh", "caseh", "para", "casem", "casex")
+    POOLS = ("opargs", "p1", "assign", "p2", "msg", "marg", "T", "cond", "swh", "caseh", "para", "casem", "casex", "wkind")
 
     def __init__(self, start: int = 0, avoid_scn_caseop: bool = True, macros: bool = True, phase: int = 0):
         """phase: where the round-robin of every pool starts (families pass the program index, so that over a family
@@ -489,6 +493,30 @@ class Renderer:
             return A.While(False, self.cond(), self.block(s[1]))
         if kind == "whilenot":
             return A.While(True, self.cond(), self.block(s[1]))
+        if kind == "W":
+            # with-block around one simple statement given as a leaf skeleton: jump / call / T / continue / break / ...
+            n = self.num()
+            kinds = ("actor", "object", "performer")
+            target = I(n) if n % 2 else C(f"CTX_{n}")
+            inner = self.stmt(s[1])
+            if isinstance(inner, A.Op) and inner.ctx is not None:
+                inner = A.Op(inner.name, inner.args)
+            if not isinstance(inner, (A.Op, A.Jump, A.Call, A.Ctrl) + A.ASSIGNMENTS):
+                inner = self.plain_op()
+            return A.With(A.CtxHeader(kinds[self.turn("wkind", 3)], target), inner)
+        if kind == "ICTX":
+            op = self.plain_op()
+            n = self.num()
+            return A.Op(op.name, op.args, A.CtxHeader(("object", "performer", "actor")[self.turn("wkind", 3)], I(n)))
+        if kind == "M":
+            self.used_macros.add("mA")
+            return A.MacroCall("mA", (self.arg(self.turn("marg", 8)),))
+        if kind == "MR":
+            self.used_macros.add("mR")
+            n = self.num()
+            return A.MacroCall("mR", (C(f"$MP{n}"), self.arg(self.turn("marg", 8))))
+        if kind == "msg":
+            return self.message_switch(self.turn("msg", 12))
         if kind == "for":
             n = self.num()
             v = C(f"$I{n}")
@@ -742,6 +770,95 @@ def _with_label(p: A.Program, where: Optional[str]) -> A.Program:
     return A.Program(p.imports, tuple(items))
 
 
+def rename_labels(sk: Any, suffix: str) -> Any:
+    """give the labels of a skeleton a routine-specific name (every pooled body only uses labels of its own)"""
+    if isinstance(sk, tuple):
+        if len(sk) == 2 and sk[0] in ("lab", "jump", "call") and isinstance(sk[1], str):
+            return (sk[0], sk[1] + suffix)
+        return tuple(rename_labels(x, suffix) for x in sk)
+    return sk
+
+
+def _body_pool(tier: str) -> list:
+    """A diverse pool of single-routine bodies (skeleton blocks) for the routine pair / triple families: bodies that
+    START with a jump / call to a label at their own end or middle, bodies that END in an if / switch / loop block, in
+    labels, in a flow-ending op, with-blocks around jump / call / return / continue / break, inline contexts, macro
+    calls (with and without `return` inside), message switches.  State that the compiler carries from one routine into
+    the next must show up in some ordered pair."""
+    L, Jl, Cl = ("lab", "l"), ("jump", "l"), ("call", "l")
+    M, MR, MSG, IC = ("M",), ("MR",), ("msg",), ("ICTX",)
+    W = lambda x: ("W", x)  # noqa: E731
+    brk, cont, bl = ("break",), ("continue",), ("break_loop",)
+
+    def iff(body: tuple, neg: bool = False, nc: int = 1) -> tuple:
+        return ("if", ((neg, nc, body),), None)
+
+    def ifelse(b1: tuple, b2: tuple, neg: bool = False) -> tuple:
+        return ("if", ((neg, 1, b1),), b2)
+
+    def sw(*cases: tuple) -> tuple:
+        return ("switch", tuple(cases))
+
+    case, dflt = (lambda *b: (False, b)), (lambda *b: (True, b))
+    pool = [
+        # start with a jump / call to a label at the own end or middle
+        (Jl, P1, L), (Jl, P1, L, P1), (Cl, P1, L), (Cl, P1, T, L, P1), (Jl, L), (P1, Jl, P1, L), (L, P1, Jl),
+        (Jl, iff((P1,)), L), (Jl, P1, L, T), (Cl, L), 
+        # end in an if / switch / loop block
+        (iff((P1,)),), (iff((P1,), True),), (ifelse((P1,), (P1,)),), (iff((T,)),), (ifelse((), (T,)),), (iff(()),),
+        (P1, ("if", ((False, 1, (P1,)), (True, 1, (P1,))), None)), 
+        (sw(case(P1, brk), case(P1)),), (sw(case(brk)),), (sw(dflt(P1)),), (sw(case(P1), dflt(brk), case(P1)),), (sw(),),
+        
+        (("forever", (P1,)),), (("forever", (P1, iff((bl,)))),), (("while", (P1,)),), (("whilenot", (P1,)),), (("for", (P1,)),),
+        (("while", (bl,)),), (("whilenot", ()),), 
+        # end in labels
+        (P1, L), (iff((Jl,)), P1, L), (iff((Jl,), True), P1, L), (T, L), (P1, L, ("lab", "m")), 
+        (sw(case(P1), case(Jl)), P1, L), 
+        # end in a flow-ending op / plain
+        (P1,), (T,), (P1, T), (P1, T, P1), (ifelse((T,), (T,)),), (P2,), 
+        # with-blocks and inline contexts around jump / call / return / loop and case control
+        (W(Jl), L, P1), (W(Jl), P1, L), (W(Jl), L), (W(Cl), L, P1), (W(T),), (P1, W(T), P1), (IC,), (P1, IC),
+        (("forever", (P1, W(cont))),), (("forever", (P1, W(bl))),), (sw(case(W(brk)), case(P1)), P1), (iff((W(Jl),)), L, P1),
+        (P1, W(Jl), L), 
+        # macro calls, message switches
+        (M,), (MR,), (M, P1), (iff((MR,)),), (MR, L), (MSG,), (P1, MSG), 
+    ]
+    if tier == "thorough":
+        pool += [
+            (Jl, P1, P1, L, ("lab", "m")),
+            (Jl, T, L),
+            (iff((P1,), False, 2),),
+            (iff((T,), True),),
+            (sw(case(P1, brk), dflt(T)),),
+            (P1, sw(case(), case(P1, brk))),
+            (("forever", (P1, iff((cont,), True), P1)),),
+            (P1, ("whilenot", (P1, T))),
+            (iff((Jl,), False, 2), T, L, P1),
+            (("forever", (P1, iff((Jl,)))), L),
+            (P2, T),
+            (W(P1),),
+            (iff((W(T),)),),
+            (Jl, M, L),
+            (iff((M,), True),),
+        ]
+        # plus small blocks over a focused alphabet (fixed stride)
+        sk = Skeletons(2, 1, leaves=(P1, T, Jl, Cl, L, W(Jl), W(T)), kinds=("if", "switch", "forever", "whilenot"), arms=2,
+                       loop_ctrl=(cont, bl, W(bl)), case_ctrl=(brk, W(brk)))  # fmt: skip
+        extra = Alt([sk.block(2, 1, (False, False)), sk.block(3, 1, (False, False))])
+        seen = set(pool)
+        for i in range(0, len(extra), max(1, len(extra) // 300)):
+            b = extra[i]
+            if b not in seen:
+                seen.add(b)
+                pool.append(b)
+    # only bodies that are valid on their own
+    out = []
+    for b in pool:
+        if valid(make_program([b])):
+            out.append(b)
+    return out
+
+
 def space(tier: str) -> list:
     """list of Family for the tier"""
     fams = []
@@ -768,6 +885,31 @@ def space(tier: str) -> list:
     else:
         stride = 17
         fams.append(Family("multi3-sample", Prod(lambda i: three[i * stride], Lit(*range(len(three) // stride))), multi))
+    # with-blocks / inline contexts whose single statement is a jump / call / terminator / loop or case control,
+    # next to labels (a jump inside a with-block to the label right behind it)
+    W = lambda x: ("W", x)  # noqa: E731
+    ctx = Skeletons(3, 1, leaves=(P1, W(J), W(("call", "x")), W(T), ("ICTX",), ("lab", "x")), kinds=("if", "switch", "forever"),
+                    arms=2, loop_ctrl=(W(("continue",)), W(("break_loop",))), case_ctrl=(W(("break",)), ("break",)))  # fmt: skip
+
+    def ctx_single(block: tuple, i: int) -> A.Program:
+        return _with_label(make_program([block], header_variant=-1, rnd=Renderer(phase=i)), ("back", "front")[i % 2])
+
+    fams.append(Family("ctx", ctx.blocks_upto(3 if tier == "quick" else 4, 1 if tier == "quick" else 2), ctx_single))
+
+    # all ordered pairs (and triples of a smaller pool) of a pool of routine bodies: state carried between routines
+    pool = _body_pool(tier)
+    bodies = Lit(*pool)
+    later = Lit(*(pool + [None]))  # `alias previous` only behind another routine
+
+    def tuple_of(bodies_: tuple, i: int) -> A.Program:
+        renamed = [None if b is None else rename_labels(b, str(k)) for k, b in enumerate(bodies_)]
+        return make_program(renamed, header_variant=(i % 7) * 2, coro=(i % 6 == 5), rnd=Renderer(phase=i))
+
+    fams.append(Family("routine-pairs", Prod(lambda x, y: (x, y), bodies, later), tuple_of))
+    n3 = 12 if tier == "quick" else 40
+    # triples: a spread of the pool (fixed stride), all ordered triples of it
+    sub = [pool[(k * len(pool)) // n3] for k in range(n3)]
+    fams.append(Family("routine-triples", Prod(lambda x, y, z: (x, y, z), Lit(*sub), Lit(*(sub + [None])), Lit(*sub)), tuple_of))
     forms = _form_programs()
     fams.append(Family("forms", Lit(*forms), lambda p, i: p))
     return fams
